@@ -720,6 +720,7 @@ class Interp:
         m = getattr(self, "s_" + type(st).__name__, None)
         if m is None:
             raise Unsupported(f"statement {type(st).__name__} at line {getattr(st, 'lineno', '?')}")
+        self.ctx.cur_line = (fr.qual, getattr(st, "lineno", 0))
         try:
             return m(st, fr)
         except PyExc as e:
@@ -1030,7 +1031,12 @@ class Interp:
         return list(self._elts(n.elts, fr))
 
     def e_Set(self, n, fr):
-        return set(self._elts(n.elts, fr))
+        return self.make_set(self._elts(n.elts, fr))
+
+    def make_set(self, items):
+        from .symseq import SymHashSet
+
+        return SymHashSet(self, list(items))
 
     def _elts(self, elts, fr):
         out = []
@@ -1421,9 +1427,9 @@ class Interp:
         return GenList(out)
 
     def e_SetComp(self, n, fr):
-        out = set()
-        self._comp(n.generators, fr, lambda cfr: out.add(self.eval(n.elt, cfr)))
-        return out
+        out = []
+        self._comp(n.generators, fr, lambda cfr: out.append(self.eval(n.elt, cfr)))
+        return self.make_set(out)
 
     def e_DictComp(self, n, fr):
         out = {}
@@ -1545,6 +1551,16 @@ class GenList:
 
 class AsyncGenList(GenList):
     pass
+
+
+def _unhashable_sym(x, depth=0):
+    if sym.is_sym(x):
+        return True
+    if depth < 3 and isinstance(x, tuple):
+        return any(_unhashable_sym(y, depth + 1) for y in x)
+    from .symseq import SymSeq
+
+    return isinstance(x, SymSeq)
 
 
 def _dec_name(dec):
